@@ -14,17 +14,44 @@ theorem toString_toInt (v : Int) : (toString v).toInt? = some v := Int.toInt?_re
 
 theorem goTy_int (b : Nat) (s : Bool) : goTy (.int b s) = .int b s := by simp [goTy]
 
+/-- the function table of the heap context is the one of the fragment (`fnSigs`), and no Go variable in sight is
+    spelled like one of its functions (a function used as a value is not captured by a local) -/
+structure FnRel (file : AFile) (G : List String) (η : Hp) (gρ : GEnv) : Prop where
+  eq : η.fns = fnSigs file G
+  free : ∀ e, e ∈ η.fns → lookupG gρ (vn e.1) = none
+
 /-- an immediate of the fragment: its value at any positive fuel on the `Sem` side, its stable value
     on the Go side, related and of the annotated type -/
-theorem imm_both {env : Env} {η : Hp} (P : Prog) {F : GFile} (ht : TyLink env F) {Γ : Ctx} {ρ : Sem.Env} {gρ : GEnv} {i : Imm}
-    (hi : immOK env Γ i = true) (hr : EnvRel env η Γ ρ gρ) :
+theorem imm_both {env : Env} {η : Hp} {file : AFile} {G : List String} (P : Prog) {F : GFile} (ht : TyLink env F) {Γ : Ctx}
+    {ρ : Sem.Env} {gρ : GEnv} {i : Imm}
+    (hi : immOK env file G Γ i = true) (hr : EnvRel env η Γ ρ gρ) (hfr : FnRel file G η gρ) :
     ∃ v gv, (∀ n w, Sem.eval (n + 1) P ρ w i.toExpr = .ok v w) ∧
       (∀ gw, EvS F gρ gw (compileImm env i) (.ok gv gw)) ∧ toGV env η v = some gv ∧ HasTy env η v i.ty := by
   cases i with
   | var x ty =>
     simp only [immOK] at hi
     cases hl : lookupTy Γ x with
-    | none => rw [hl] at hi; simp at hi
+    | none =>
+      -- a top-level function used as a value
+      rw [hl] at hi; simp only at hi
+      cases ty <;> simp only [fnValOK] at hi <;> try (cases hi; done)
+      rename_i ps r
+      simp only [Bool.and_eq_true] at hi
+      obtain ⟨_, hfind⟩ := hi
+      cases hf : (fnSigs file G).find? (·.1 == x) with
+      | none => rw [hf] at hfind; cases hfind
+      | some e =>
+        rw [hf] at hfind; simp only [Bool.and_eq_true] at hfind
+        obtain ⟨n, ps', r'⟩ := e
+        have hn : n = x := by have := List.find?_some hf; simpa using this
+        subst hn
+        have hps := scalarEqs_eq hfind.1; have hr' := scalarEq_eq hfind.2
+        simp only at hps hr'; subst hps; subst hr'
+        have hmem : (n, ps', r') ∈ η.fns := by rw [hfr.eq]; exact List.mem_of_find?_eq_some hf
+        have hsrc : Sem.lookupEnv ρ n = none := hr.2 n hl
+        refine ⟨.fn n, .func (vn n), fun k w => ?_, fun gw => ev_var_none (hfr.free _ hmem), by simp [toGV], ?_⟩
+        · simp only [Imm.toExpr]; rw [Sem.eval]; simp only [hsrc]
+        · simp only [HasTy, Imm.ty, hfr.eq]; exact hf
     | some t =>
       rw [hl] at hi; simp only at hi
       have ht := scalarEq_eq hi; subst ht
@@ -90,8 +117,8 @@ def ArgsRel (env : Env) (η : Hp) : List Val → List GVal → List Ty → Prop
   | v :: vs, g :: gs, t :: ts => toGV env η v = some g ∧ HasTy env η v t ∧ ArgsRel env η vs gs ts
   | _, _, _ => False
 
-theorem imms_both {env : Env} {η : Hp} (P : Prog) {F : GFile} (ht : TyLink env F) {Γ : Ctx} {ρ : Sem.Env} {gρ : GEnv}
-    (hr : EnvRel env η Γ ρ gρ) : ∀ {args : List Imm} {tys : List Ty}, argsOK env Γ args tys = true →
+theorem imms_both {env : Env} {η : Hp} {file : AFile} {G : List String} (P : Prog) {F : GFile} (ht : TyLink env F) {Γ : Ctx}
+    {ρ : Sem.Env} {gρ : GEnv} (hr : EnvRel env η Γ ρ gρ) (hfr : FnRel file G η gρ) : ∀ {args : List Imm} {tys : List Ty}, argsOK env file G Γ args tys = true →
     ∃ vs gvs, ArgsRel env η vs gvs tys ∧ (∀ gw, EvLS F gρ gw (compileImms env args) (.ok gvs gw)) ∧
       (∀ n w, Sem.evalList n P ρ w (args.map Imm.toExpr) = .fail .fuel w ∨
               Sem.evalList n P ρ w (args.map Imm.toExpr) = .ok vs w) := by
@@ -113,7 +140,7 @@ theorem imms_both {env : Env} {η : Hp} (P : Prog) {F : GFile} (ht : TyLink env 
     | cons t ts =>
       simp only [argsOK, Bool.and_eq_true] at h
       obtain ⟨⟨ha, hta⟩, has⟩ := h
-      obtain ⟨v, gv, hs, hg, hrel, hty⟩ := imm_both P ht ha hr
+      obtain ⟨v, gv, hs, hg, hrel, hty⟩ := imm_both P ht ha hr hfr
       obtain ⟨vs, gvs, hrs, hgs, hss⟩ := ih has
       have ht := scalarEq_eq hta
       refine ⟨v :: vs, gv :: gvs, ⟨hrel, ht ▸ hty, hrs⟩, fun gw => ?_, fun n w => ?_⟩
